@@ -19,6 +19,7 @@ import AcVerif.CostOverlap
 import AcVerif.PreScan
 import AcVerif.StreamCost
 import AcVerif.MemUsage
+import AcVerif.NfaMemCompile
 import AcVerif.Compiler
 import AcVerif.DfaModel
 import AcVerif.DfaIds
@@ -397,6 +398,19 @@ def answerMeta (r : Req) (c : Cfg) : String :=
         | some (some _) => "1" | some none => "0" | none => "?"
       s!"n={A.patternsLen} min={A.minLen} max={A.maxLen} mk={mk} plens={nums (P.map List.length)} pre={pre}"
   | _, _ => "bad-request:meta"
+
+/-- `rawnnfa`: the raw vectors of the noncontiguous NFA just before `shuffle` (`MemNfa.compile`), in the format of the
+`verif::take_preshuffle` hook: `states` as `sparse:matches:fail:depth`, `sparse` as `byte:next:link`, `matches` as
+`pid:link` -/
+def answerRawNnfa (r : Req) : String :=
+  match r.list? "pats", MatchKind.parse (r.getD "mk" "std") with
+  | some P, some k =>
+    let m := MemNfa.compile k (r.flag "fold") P
+    let st := m.states.toList.map fun s => s!"{s.sparse}:{s.matches_}:{s.fail}:{s.depth}"
+    let sp := m.sparse.toList.map fun t => s!"{t.byte.toNat}:{t.next}:{t.link}"
+    let ma := m.matches_.toList.map fun x => s!"{x.pid}:{x.link}"
+    s!"states={",".intercalate st} sparse={",".intercalate sp} matches={",".intercalate ma}"
+  | _, _ => "bad-request:rawnnfa"
 
 /-- `memusage`: `Automaton::memory_usage()` of a low-level automaton built without a prefilter -/
 def answerMemUsage (r : Req) (c : Cfg) : String :=
@@ -917,6 +931,7 @@ def respond (lineNo : Nat) (line : String) : List String :=
     | "pre" => (cfgsOf r).map fun c => s!"{lineNo} {c.name} {answerPre r c}"
     | "meta" => (cfgsOf r).map fun c => s!"{lineNo} {c.name} {answerMeta r c}"
     | "memusage" => (cfgsOf r).map fun c => s!"{lineNo} {c.name} {answerMemUsage r c}"
+    | "rawnnfa" => [s!"{lineNo} - {answerRawNnfa r}"]
     | "threads" => (cfgsOf r).map fun c =>
         let hays := (r.getD "hays" "_").splitOn "|"
         let finds := hays.map fun h =>
